@@ -1031,20 +1031,95 @@ func c14ReadCompletesAsShutdownBegins(w *core.W, j int) {
 	}
 }
 
+// c14TransientErrors: the socket reports a transient failure that is not a timeout (what a real listener
+// says when the process is out of descriptors or the peer aborted in the backlog, a datagram socket on
+// ENOBUFS or an ICMP error) between two messages. The messages that arrive afterwards are messages the
+// server receives like any other: handler once, reply delivered.
+func c14TransientErrors(w *core.W, j int) {
+	kind := []string{"udp", "tcp"}[j%2]
+	s := newC14Srv(w, kind, uint64(w.Seed)+uint64(j))
+	if s == nil {
+		return
+	}
+	defer s.stop()
+	fail := func(k int) bool {
+		what := []string{"ECONNABORTED", "EMFILE", "ENOBUFS", "EPROTO"}[(j+k)%4]
+		if kind == "udp" {
+			n0 := s.pc.ReadErrors()
+			s.pc.FailRead(netsim.TemporaryErr{What: what})
+			for d := time.Now().Add(c13Watch); s.pc.ReadErrors() == n0; {
+				if time.Now().After(d) {
+					return false
+				}
+				time.Sleep(50 * time.Microsecond)
+			}
+		} else {
+			n0 := s.ln.AcceptErrors()
+			s.ln.FailAccept(netsim.TemporaryErr{What: what})
+			for d := time.Now().Add(c13Watch); s.ln.AcceptErrors() == n0; {
+				if time.Now().After(d) {
+					return false
+				}
+				time.Sleep(50 * time.Microsecond)
+			}
+		}
+		return true
+	}
+	rounds := 2 + j%4
+	for k := 0; k < rounds; k++ {
+		// the failure is reported while the server waits for the next message (k even) or two of them in a row (k odd)
+		for f := 0; f <= k%2; f++ {
+			if !fail(k + f) {
+				select {
+				case err := <-s.serveErr:
+					s.serveErr <- err
+					w.Violation("C14/packet-not-dealt-with/"+kind+"/after-transient-error", fmt.Sprintf("the serve call returned (%v) when the socket reported a transient, non-timeout failure; messages arriving afterwards are never read", err), map[string]any{"round": k})
+				default:
+					w.Inconclusive("c14-injected-error-not-consumed")
+				}
+				return
+			}
+			w.Count("transient_errors_injected", 1)
+		}
+		q := new(dns.Msg)
+		q.SetQuestion(fmt.Sprintf("after-error-%d-%d.example.", j, k), dns.TypeA)
+		q.Id = uint16(0x2000 + j*8 + k)
+		pkt, _ := q.Pack()
+		w.Eval(1)
+		handled, invalid, replies, ok := s.deliver(pkt)
+		wit := map[string]any{"packet": hx(pkt), "round": k, "transport": kind}
+		if !ok {
+			s.stuck++
+			w.Violation("C14/packet-not-dealt-with/"+kind+"/after-transient-error", "a query delivered after the socket had reported a transient, non-timeout failure was never dealt with", wit)
+			return
+		}
+		if handled != 1 || invalid != 0 || len(replies) != 1 {
+			w.Violation("C14/not-exactly-one-outcome/"+kind+"/after-transient-error", fmt.Sprintf("query after a transient failure: handler calls=%d, invalid reports=%d, replies=%d (want the handler once and its reply)", handled, invalid, len(replies)), wit)
+			return
+		}
+		if r := new(dns.Msg); r.Unpack(replies[0]) != nil || r.Id != q.Id || !r.Response {
+			w.Violation("C14/reply-shape/"+kind+"/after-transient-error", "the reply after a transient failure is not the handler's reply to this query", wit)
+		}
+		w.Count("handled_after_transient_error", 1)
+	}
+	w.NontrivialStr("transient", kind, fmt.Sprint(j))
+}
+
 func init() {
 	plan, run := sections(
 		section{"admission", tiered(120, 4000), c14Admission},
 		section{"shutdown-race", tiered(12, 200), c14ReadCompletesAsShutdownBegins},
 		section{"long-pipelines", tiered(8, 160), c14LongPipelines},
+		section{"transient-errors", tiered(16, 320), c14TransientErrors},
 		section{"routing", tiered(300, 10000), c14Routing},
 		section{"mux-linearizability", tiered(300, 10000), c14Linearizable},
 	)
 	core.Register(&core.Monitor{
 		ID: "C14", Level: "exploration", Plan: plan, Run: run, Race: true, Terminates: true, MaxParallel: 16,
-		Rule: "admission: real Server over simulated datagram and stream transports, one packet at a time with hook-signalled quiescence: all opcode x QR combinations, counts from {0,1,2,3,65535}^4, model-well-formed queries of every type, mutated/truncated hostile packets; stream frames delivered whole, with the length prefix split, octet by octet; 2..8 messages pipelined on one connection in arbitrary segments; a datagram whose read completes while Shutdown sets the deadline; " +
+		Rule: "admission: real Server over simulated datagram and stream transports, one packet at a time with hook-signalled quiescence: all opcode x QR combinations, counts from {0,1,2,3,65535}^4, model-well-formed queries of every type, mutated/truncated hostile packets; stream frames delivered whole, with the length prefix split, octet by octet; 2..8 messages pipelined on one connection in arbitrary segments; a datagram whose read completes while Shutdown sets the deadline; transient non-timeout failures (net.Error, Temporary) reported by Accept / ReadFrom between messages, singly and twice in a row; " +
 			"oracle = reference accept policy + exactly-one-of {handler once, reject reply, ignore, invalid callback(+FORMERR)} + reply shape; routing: random pattern sets over related names (escaped dots, case variants, relative spellings, root) x query names/types against a wire-label longest-suffix reference (DS: any registered strict ancestor); " +
 			"concurrent Handle/HandleRemove/ServeDNS histories (4 threads x 8 ops) checked for linearizability with porcupine; race detector on; non-trivial = distinct packet/transport, routing case or history",
 		Assumptions: []string{"for DS queries the statement does not say which of several registered ancestors is meant: any registered strict ancestor is accepted"},
-		MinObserved: []string{"accepted_and_handled", "accepted_but_undecodable", "short_packets", "wellformed_queries", "routing_ds_cases", "routing_refused", "histories", "segmented_stream_deliveries", "pipelines", "routing_reconfigurations", "long_pipelines"},
+		MinObserved: []string{"accepted_and_handled", "accepted_but_undecodable", "short_packets", "wellformed_queries", "routing_ds_cases", "routing_refused", "histories", "segmented_stream_deliveries", "pipelines", "routing_reconfigurations", "long_pipelines", "handled_after_transient_error"},
 	})
 }
